@@ -479,7 +479,7 @@ class _WorkCheck(MTCheck):
     model_ml = "workmt_model.ml"
     driver_in = "workmt_drv.ml.in"
     open_module = "Workmt_model"
-    coq_targets = ["theories/MT/WorkMT.vo", "theories/MT/WorkMTBase.vo", "theories/MT/WorkMTSpec.vo", "theories/MT/WorkMTCs.vo",
+    coq_targets = ["theories/MT/WorkMT.vo", "theories/MT/WorkMTMon.vo", "theories/MT/WorkMTBase.vo", "theories/MT/WorkMTSpec.vo", "theories/MT/WorkMTCs.vo",
                    "theories/MT/WorkMTInvA.vo", "theories/MT/WorkMTInvW.vo", "theories/MT/WorkMTInvW4.vo",
                    "theories/MT/WorkMTInvW5.vo"]
     trusted = [
